@@ -416,7 +416,7 @@ impl Property for C12 {
         40_000
     }
     fn random_cases(&self, tier: Tier) -> u64 {
-        tier.pick(30_000, 400_000)
+        tier.pick(600_000, 3_000_000)
     }
     fn run(&self, t: &mut Tape, ctx: &mut CaseCtx) -> Verdict {
         let prog = if t.chance(1, 2) { crate::props::c01::gen_case(t, 14, true, false).0 } else { crate::gen::banks::gen_bank_program(t).0 };
